@@ -451,6 +451,16 @@ func genC02(r *Rand, tier, profile string) *Case {
 	} else if r.Bool(0.05) {
 		n = r.Range(480, 560)
 	}
+	// a subscriber that stops reading for a while (full send buffer): the writer waits on it while
+	// publishers carry on, the log grows, rolls and - with a pre-filled log - reaches a truncation
+	// point; nothing the writer has not read back yet may be truncated away
+	stallAt := -1
+	if r.Bool(0.08) {
+		// the stall begins a little below a segment that the truncation at offset 2000 removes
+		c.Knobs["prefill"] = int64(r.Range(1380, 1480))
+		n = r.Range(640, 760)
+		stallAt = r.Range(0, 15)
+	}
 	pids := map[int]int{}
 	slowRel := n <= 40 && r.Bool(0.2)
 	if slowRel {
@@ -471,6 +481,12 @@ func genC02(r *Rand, tier, profile string) *Case {
 			gap = int64(r.Range(100, 1500))
 		}
 		q := 1 + r.Intn(2)
+		if i == stallAt {
+			c.Steps = append(c.Steps, Step{K: "stall", At: 1, C: r.Intn(nsub), I: int64(r.Range(4000, 12000))})
+		}
+		if stallAt >= 0 {
+			gap, pad = int64(r.Range(1, 6)), 0
+		}
 		c.Steps = append(c.Steps, Step{K: "pub", At: gap, C: p, T: "t/x", S: fmt.Sprintf("m%d", i+1), Q: q, I: int64(pids[p]), J: int64(pad)})
 		if slowRel && q == 2 {
 			// the publisher releases by hand: at once, a little later, or only after the broker's
@@ -479,7 +495,7 @@ func genC02(r *Rand, tier, profile string) *Case {
 			c.Steps = append(c.Steps, Step{K: "pkt", At: int64(r.PickInt([]int{2, 2, 60, 900, 4600})), C: p, S: "pubrel", I: int64(pids[p])})
 		}
 	}
-	if slow {
+	if slow || stallAt >= 0 {
 		c.Steps = append(c.Steps, Step{K: "sleep", At: 10, I: 16000})
 	} else {
 		c.Steps = append(c.Steps, Step{K: "sleep", At: 10, I: 1500})
